@@ -187,7 +187,7 @@ func checkC14(c *Ctx) {
 				ops = []string{"Add", "AddW", "AddN", "Merge", "Copy", "Clear", "Reweight", "EncDec", "DecodeNew", "Read"}
 			}
 			sim := &SketchGen{Init: init, Tokens: append(append([]int{}, tokBins3...), 0, 2, -3), Weights: []int{1, 4, 8, 132, 280},
-				Factors: [][2]int{{1, 2}, {2, 1}, {3, 1}}, Ops: ops, Q: 4, QDen: 8, Depth: c.pick(16, 30), Simulate: true, Num: c.pick(500, 6000)}
+				Factors: [][2]int{{1, 2}, {2, 1}, {3, 1}}, Ops: ops, Q: 4, QDen: 8, Depth: c.pick(16, 30), Simulate: true, Num: c.pick(500, 3000)}
 			c.runSketchGen(sim, mx, c.pick(6, 12), "simulated histories with reads and copies, "+variant)
 		}
 	}
@@ -199,7 +199,7 @@ func checkC14(c *Ctx) {
 	cmTree := &SketchGen{Init: cmInit[:2], Tokens: []int{11, -12}, Weights: []int{6}, Ops: []string{"AddW", "ChangeMap", "Clear", "Read"}, Q: 4, QDen: 8, Depth: c.pick(3, 4)}
 	c.runSketchGen(cmTree, mxc, c.pick(4, 8), "exhaustive tree with unit/mapping changes and reads")
 	cmSim := &SketchGen{Init: cmInit, Tokens: append(append([]int{}, tokBins3...), 0, 2), Weights: []int{0, 2, 4, 8}, Factors: [][2]int{{1, 2}, {2, 1}},
-		Ops: []string{"Add", "AddW", "Merge", "Copy", "Clear", "Reweight", "ChangeMap", "Read"}, Q: 4, QDen: 8, Depth: c.pick(10, 20), Simulate: true, Num: c.pick(500, 6000)}
+		Ops: []string{"Add", "AddW", "Merge", "Copy", "Clear", "Reweight", "ChangeMap", "Read"}, Q: 4, QDen: 8, Depth: c.pick(10, 20), Simulate: true, Num: c.pick(500, 3000)}
 	c.runSketchGen(cmSim, mxc, c.pick(6, 12), "simulated histories with unit/mapping changes and reads")
 }
 
@@ -218,7 +218,7 @@ func checkC15(c *Ctx) {
 		for _, init := range mixedInits(variant) {
 			sim := &SketchGen{Init: init, Tokens: append(append([]int{}, tokBins3...), 0, 2, 16, 17, -16, -17), Weights: []int{1, 4, 8, 132, 280},
 				Factors: [][2]int{{1, 2}, {2, 1}}, Ops: []string{"Add", "AddW", "AddN", "Merge", "Copy", "Clear", "Reweight", "EncDec", "DecodeNew"},
-				Q: 4, QDen: 8, Depth: c.pick(16, 30), Simulate: true, Num: c.pick(500, 6000)}
+				Q: 4, QDen: 8, Depth: c.pick(16, 30), Simulate: true, Num: c.pick(500, 3000)}
 			c.runSketchGen(sim, mx, c.pick(6, 12), "simulated clear/reuse cycles, "+variant)
 		}
 	}
@@ -240,7 +240,7 @@ func checkC16(c *Ctx) {
 		for _, init := range mixedInits(variant) {
 			sim := &SketchGen{Init: init, Tokens: append(append([]int{}, tokBins3...), 0, 2), Weights: []int{1, 4, 4, 8, 132, 280},
 				Factors: [][2]int{{1, 4}, {1, 2}, {2, 1}, {3, 1}, {1, 1}}, Ops: []string{"Add", "AddW", "AddN", "Reweight", "Merge", "Copy"},
-				Q: 4, QDen: 8, Depth: c.pick(12, 24), Simulate: true, Num: c.pick(500, 6000)}
+				Q: 4, QDen: 8, Depth: c.pick(12, 24), Simulate: true, Num: c.pick(500, 3000)}
 			mxs := *mx
 			mxs.Aspects = map[string]bool{"reweight": true}
 			c.runSketchGen(sim, &mxs, c.pick(6, 12), "simulated histories with reweight, "+variant)
